@@ -367,9 +367,9 @@ impl Write for OneByteWriter {
 // ---------------------------------------------------------------------------
 // Families
 
-pub const FAMILIES: [&str; 16] = [
+pub const FAMILIES: [&str; 17] = [
     "truncation", "byte-substitution", "u32-field", "chunk-ops", "xml-mutation", "read-script-1", "read-script-2", "write-fault",
-    "attr-all-bytes", "xml-all-strings", "header-variants", "deep-xml", "chunk-splice", "one-byte-io", "chunk-payload-cut", "chunk-payload-delete-byte",
+    "attr-all-bytes", "xml-all-strings", "header-variants", "deep-xml", "chunk-splice", "one-byte-io", "chunk-payload-cut", "chunk-payload-delete-byte", "decode-after-failure",
 ];
 
 const SUBST: [u8; 5] = [0x00, 0x01, 0x7f, 0x80, 0xff];
@@ -473,6 +473,8 @@ pub struct Engine {
     write_targets: Vec<(usize, u8, usize)>,
     /// (file, chunk, position): every position inside every chunk payload of the uncompressed corpus files
     payload_pos: Vec<(usize, usize, usize)>,
+    /// (plan, codec) -> bytes written before any failure was injected
+    write_reference: std::collections::HashMap<(usize, u8), Vec<u8>>,
 }
 
 fn xml_len(tier: Tier) -> u32 {
@@ -530,16 +532,19 @@ impl Engine {
         }
         // write targets: (plan, codec 0..3 = binary compressions, 3 = xml, output length)
         let mut write_targets = Vec::new();
+        let mut write_reference = std::collections::HashMap::new();
         for (p, plan) in corpus.plans.iter().enumerate() {
             let r = plan.realise(How::Nested, None);
             let roots = plan.root_refs(&r);
             for (ci, c) in Compression::all().iter().enumerate() {
                 if let Ok(Ok(b)) = crate::codec::binary_encode(&r, &roots, *c) {
                     write_targets.push((p, ci as u8, b.len()));
+                    write_reference.insert((p, ci as u8), b);
                 }
             }
             if let Ok(Ok(b)) = crate::codec::xml_encode(&r, &roots, XmlMode::Unknown) {
                 write_targets.push((p, 3, b.len()));
+                write_reference.insert((p, 3u8), b);
             }
         }
         let mut payload_pos = Vec::new();
@@ -553,7 +558,7 @@ impl Engine {
                 }
             }
         }
-        Engine { corpus, tier, bin, xml, attr, xml_muts, chunk_ops, splices, read_calls, write_targets, payload_pos }
+        Engine { corpus, tier, bin, xml, attr, xml_muts, chunk_ops, splices, read_calls, write_targets, payload_pos, write_reference }
     }
 
     fn files_of(&self, family: usize) -> Vec<usize> {
@@ -599,6 +604,7 @@ impl Engine {
             12 => self.splices.len() as u64,
             13 => (self.corpus.files.len() + self.write_targets.len()) as u64,
             14 | 15 => self.payload_pos.len() as u64 * 3,
+            16 => self.corpus.files.len() as u64 * 32,
             _ => 0,
         }
     }
@@ -749,6 +755,33 @@ impl Engine {
                     ),
                     Ok(Err(())) => {}
                 }
+                // a failed write must not leave anything behind: the next write of the same tree
+                // (same thread) is byte-identical to one made before any failure
+                let clean = |dom: &rbx_dom_weak::WeakDom| -> Option<Vec<u8>> {
+                    crate::evidence::guarded(|| {
+                        let mut v = Vec::new();
+                        let ok = if codec < 3 {
+                            rbx_binary::Serializer::new().compression_type(Compression::all()[codec as usize].real()).serialize(&mut v, dom, &roots).is_ok()
+                        } else {
+                            rbx_xml::to_writer(&mut v, dom, &roots, xml_options(XmlMode::Unknown).0).is_ok()
+                        };
+                        if ok { Some(v) } else { None }
+                    })
+                    .ok()
+                    .flatten()
+                };
+                if let Some(after) = clean(&r.dom) {
+                    let reference = self.write_reference.get(&(p, codec));
+                    if let Some(reference) = reference {
+                        if &after != reference {
+                            out.violation(
+                                format!("c13|{}|state-left-by-failed-write", name),
+                                format!("{}: after a write that failed at byte {} ({:?}) the next write of the same tree differs from the reference output", name, limit, mode),
+                                &replay,
+                            );
+                        }
+                    }
+                }
                 out.outcome("write-fault");
             }
             8 => {
@@ -845,6 +878,29 @@ impl Engine {
                 b.extend_from_slice(&fa.bytes[ta[i].0..ta[i].1]);
                 b.extend_from_slice(&fb.bytes[tb[j].1..]);
                 judge_decode(Kind::Bin, &b, fam, false, out, &replay);
+            }
+            16 => {
+                // state that survives a failed decode: a valid file decoded right after a rejected
+                // one (same thread) gives what it gives on its own
+                let f = (index / 32) as usize;
+                let k = (index % 32) as usize;
+                let file = &self.corpus.files[f];
+                let cut = file.bytes.len() * k / 32;
+                let mut bad = file.bytes[..cut].to_vec();
+                if k % 2 == 1 {
+                    bad.extend_from_slice(&[0xff, 0x00, 0x7f]);
+                }
+                let _ = decode_with(file.kind, bad.as_slice());
+                let got = decode_with(file.kind, file.bytes.as_slice());
+                out.executions += 2;
+                if got != self.baseline(f) {
+                    out.violation(
+                        format!("c13|{}|state-left-by-failed-decode", kind_name(file.kind)),
+                        format!("{}: decoding {} right after a rejected input (its first {} bytes) gives {:?} instead of {:?}", kind_name(file.kind), file.desc, cut, short_out(&got), short_out(&self.baseline(f))),
+                        &replay,
+                    );
+                }
+                out.outcome("decode-after-failure");
             }
             14 | 15 => {
                 // a chunk whose payload is shorter than its content needs, in a correctly framed file:
